@@ -328,6 +328,19 @@ def flatten(fd: dict) -> Micro:
     return m
 
 
+def line_check(m: Micro) -> str:
+    """driver request: verify this function"""
+    return "0 " + encode(m)
+
+
+def line_replay(m: Micro, w: dict) -> str:
+    """driver request: replay the witness `w` (of concrete_witness) in the Lean semantics"""
+    out = [1, len(w["null_args"])] + list(w["null_args"]) + [len(w["choices"])]
+    for a, b, c in w["choices"]:
+        out += [a, b, c]
+    return " ".join(map(str, out)) + " " + encode(m)
+
+
 def encode(m: Micro) -> str:
     """One line of naturals:
        nvars nargs (var kind)* nblocks ( nops (code a b)* term )*
@@ -394,4 +407,518 @@ def lean_term(m: Micro) -> str:
         return ".br [" + ", ".join("⟨[" + ", ".join(mo(x) for x in eo) + f"], {tg}⟩" for eo, tg in t[1]) + "]"
     blocks = ",\n      ".join("⟨[" + ", ".join(mo(x) for x in b["ops"]) + "], " + term(b["term"]) + "⟩" for b in m.blocks)
     args = ", ".join(f"({v}, {'.optional' if k else '.borrowed'})" for v, k in m.args)
-    return f"{{ nvars := {m.nvars}, args := [{args}],\n    blocks := [\n      {blocks}] }}"
+    return f"{{ nvars := {m.nvars}, args := [{args}],\n    blocks := #[\n      {blocks}] }}"
+
+
+# ======================================================================================================
+# Reference implementation (Python) of Model/IR.lean + Model/Ownership.lean.
+# Used for *diagnostics only*: the verdict on a function is the Lean driver's `checkFunc`; this code finds the
+# first failing micro-op (to name the IR op / value in reports) and a concrete witness path whose choice
+# indices follow the order of the successor lists of `runOps` in Model/IR.lean, so that `replayFrom` (Lean)
+# can re-check it.
+# Concrete values: "U" undef, "N" null, "I" imm, (owned, kept).
+# ======================================================================================================
+MAX_OWNED = 4
+KIND_VALS = {OWNED: [(1, False)], MAYBE: [(1, False), "N"], BORROWED: [(0, True)], MAYBE_BORROWED: [(0, True), "N"],
+             NULL: ["N"], IMM: ["I"]}
+
+
+def owns(c: Any) -> bool:
+    return isinstance(c, tuple) and c[0] > 0
+
+
+def usable(c: Any) -> bool:
+    return c == "I" or (isinstance(c, tuple) and (c[0] > 0 or c[1]))
+
+
+def step_steal(c: Any) -> list | None:
+    if c == "I":
+        return ["I"]
+    if isinstance(c, tuple) and c[0] > 0:
+        return [(c[0] - 1, c[1])]
+    return None
+
+
+def step_val(code: int, b: int, c: Any) -> list | None:
+    """`stepVal` of Model/IR.lean."""
+    if code == DEFINE:
+        return None if owns(c) else list(KIND_VALS[b])
+    if code == INCREF:
+        if c == "I":
+            return ["I"]
+        if isinstance(c, tuple) and (c[0] > 0 or c[1]):
+            return [(c[0] + 1, c[1])]
+        return None
+    if code == DECREF:
+        if c == "I":
+            return ["I"]
+        if isinstance(c, tuple):
+            return [(c[0] - 1, c[1])] if c[0] > 0 else None
+        if c == "N":
+            return ["N"] if b else None
+        return None
+    if code == STEAL:
+        return step_steal(c)
+    if code == STEAL_MAYBE:
+        return ["N"] if c == "N" else step_steal(c)
+    if code == USE:
+        return [c] if usable(c) else None
+    if code == USE_MAYBE:
+        return [c] if usable(c) or c == "N" else None
+    if code == ASSUME_NULL:
+        if c == "U":
+            return None
+        return ["N"] if c == "N" else []
+    if code == ASSUME_OK:
+        if c == "U":
+            return None
+        return [] if c == "N" else [c]
+    return None
+
+
+def move_src(c: Any) -> tuple | None:
+    if c == "I":
+        return ("I", "I")
+    if c == "N":
+        return ("N", "N")
+    if isinstance(c, tuple) and c[0] > 0:
+        return ((1, c[1]), (c[0] - 1, c[1]))
+    return None
+
+
+def ret_val(c: Any) -> Any:
+    if c in ("I", "N"):
+        return c
+    if isinstance(c, tuple) and c[0] > 0:
+        return (c[0] - 1, c[1])
+    return None
+
+
+def in_bound(c: Any) -> bool:
+    return not isinstance(c, tuple) or c[0] <= MAX_OWNED
+
+
+class _Bad(Exception):
+    pass
+
+
+def _a_op(st: list, mop: tuple, where: Any) -> None:
+    code, a, b, _ = mop
+    if code == MOVE:
+        if a == b:
+            raise _Bad((where, mop, a, "self-move"))
+        for cd in st[a]:
+            if owns(cd):
+                raise _Bad((where, mop, a, cd))
+        nd, ns = set(), set()
+        for cs in st[b]:
+            r = move_src(cs)
+            if r is None:
+                raise _Bad((where, mop, b, cs))
+            nd.add(r[0])
+            ns.add(r[1])
+        if not all(in_bound(x) for x in nd | ns):
+            raise _Bad((where, mop, b, "overflow"))
+        st[b] = frozenset(ns)
+        st[a] = frozenset(nd)
+        return
+    new = set()
+    for c in st[a]:
+        r = step_val(code, b, c)
+        if r is None:
+            raise _Bad((where, mop, a, c))
+        for x in r:
+            if not in_bound(x):
+                raise _Bad((where, mop, a, "overflow"))
+            new.add(x)
+    st[a] = frozenset(new)
+
+
+def init_sets(m: Micro) -> list:
+    init = [frozenset(["U"])] * m.nvars
+    for v, k in m.args:
+        if v < m.nvars and init[v] == frozenset(["U"]):   # first listing wins, like argKindOf
+            init[v] = frozenset([(0, True)]) if k == ARG_BORROWED else frozenset([(0, True), "N"])
+    return init
+
+
+def check(m: Micro) -> tuple | None:
+    """`checkFunc` (same domain, same worklist order).  None = accepted, else
+    (where, micro-op or pseudo-op, variable, offending value)."""
+    nb = len(m.blocks)
+    if nb == 0:
+        return (("entry",), ("noblocks",), 0, None)
+    ann: list = [None] * nb
+    ann[0] = init_sets(m)
+    work = [0]
+    fuel = 64 + nb * 40
+    try:
+        while work and fuel > 0:
+            fuel -= 1
+            bi = min(work)
+            work.remove(bi)
+            st = list(ann[bi])
+            blk = m.blocks[bi]
+            for i, mop in enumerate(blk["ops"]):
+                _a_op(st, mop, (bi, i))
+            t = blk["term"]
+            if t[0] == "unreachable":
+                continue
+            if t[0] == "ret":
+                if t[1] is not None:
+                    new = set()
+                    for c in st[t[1]]:
+                        r = ret_val(c)
+                        if r is None:
+                            raise _Bad(((bi, "ret"), ("ret", t[1]), t[1], c))
+                        new.add(r)
+                    st[t[1]] = frozenset(new)
+                for v in range(m.nvars):
+                    for c in st[v]:
+                        if owns(c):
+                            raise _Bad(((bi, "ret"), ("leak", v), v, c))
+                continue
+            for ei, (eops, tgt) in enumerate(t[1]):
+                s2 = list(st)
+                for j, mop in enumerate(eops):
+                    _a_op(s2, mop, (bi, ("edge", ei, j)))
+                if any(not s2[mop[1]] for mop in eops):
+                    continue
+                if tgt >= nb:
+                    raise _Bad(((bi, "term"), ("badtarget", tgt), 0, None))
+                if ann[tgt] is None:
+                    ann[tgt] = s2
+                    if tgt not in work:
+                        work.append(tgt)
+                else:
+                    cur = ann[tgt]
+                    ch = False
+                    for v in range(m.nvars):
+                        if not s2[v] <= cur[v]:
+                            cur[v] = cur[v] | s2[v]
+                            ch = True
+                    if ch and tgt not in work:
+                        work.append(tgt)
+        if work:
+            return (("infer",), ("fuel",), 0, None)
+    except _Bad as e:
+        return e.args[0]
+    return None
+
+
+# ---- concrete semantics with the successor-list order of Model/IR.lean ---------------------------------------
+def step_op(mop: tuple, s: tuple) -> list | None:
+    code, a, b, _ = mop
+    if code == MOVE:
+        if a == b or owns(s[a]):
+            return None
+        r = move_src(s[b])
+        if r is None:
+            return None
+        t = list(s)
+        t[b] = r[1]
+        t[a] = r[0]
+        return [tuple(t)]
+    r = step_val(code, b, s[a])
+    if r is None:
+        return None
+    out = []
+    for c in r:
+        t = list(s)
+        t[a] = c
+        out.append(tuple(t))
+    return out
+
+
+def run_ops(ops: list, s: tuple) -> list | None:
+    """`runOps`: list of successor states in Lean's order, None = stuck somewhere."""
+    cur = [s]
+    for mop in ops:
+        nxt: list = []
+        for x in cur:
+            r = step_op(mop, x)
+            if r is None:
+                return None
+            nxt += r
+        cur = nxt
+    return cur
+
+
+def _run_ops_lean_order(ops: list, s: tuple) -> list | None:
+    # runOps (op :: rest) s = bindAll (runOps rest) (stepOp op s): depth-first concatenation — the same order as
+    # the breadth-wise expansion above (both enumerate choices lexicographically), kept for clarity
+    return run_ops(ops, s)
+
+
+def term_unsafe(m: Micro, s: tuple, t: tuple) -> bool:
+    if t[0] == "unreachable":
+        return False
+    if t[0] == "ret":
+        if t[1] is not None:
+            r = ret_val(s[t[1]])
+            if r is None:
+                return True
+            s = s[:t[1]] + (r,) + s[t[1] + 1:]
+        return any(owns(c) for c in s)
+    return any(tgt >= len(m.blocks) or run_ops(eops, s) is None for eops, tgt in t[1])
+
+
+def block_unsafe(m: Micro, l: int, s: tuple) -> bool:
+    if l >= len(m.blocks):
+        return True
+    ss = run_ops(m.blocks[l]["ops"], s)
+    if ss is None:
+        return True
+    return any(term_unsafe(m, x, m.blocks[l]["term"]) for x in ss)
+
+
+def init_states(m: Micro) -> list[tuple[list[int], tuple]]:
+    """[(optional arguments passed as the error value, initial state)]: none, each single one, all."""
+    kinds: dict[int, int] = {}
+    for v, k in m.args:
+        kinds.setdefault(v, k)
+    opt = [v for v, k in kinds.items() if k == ARG_OPTIONAL]
+    combos: list[list[int]] = [[]] + [[v] for v in opt] + ([opt] if len(opt) > 1 else [])
+    out = []
+    for nulls in combos:
+        s = ["U"] * m.nvars
+        for v in kinds:
+            if v < m.nvars:
+                s[v] = "N" if v in nulls else (0, True)
+        out.append((nulls, tuple(s)))
+    return out
+
+
+def concrete_witness(m: Micro, cap: int = 60000) -> dict | None:
+    """Breadth-first search in the concrete semantics for a shortest path from an initial state to an unsafe
+    block entry.  Returns {"null_args": [...], "choices": [(afterOps, edge, afterEdge)], "labels": [...]} whose
+    indices are valid for `replayFrom` of Model/IR.lean, or None (cap reached / none exists)."""
+    from collections import deque
+    seen = set()
+    q: deque = deque()
+    parent: dict = {}
+    for nulls, s in init_states(m):
+        key = (0, s)
+        if key not in seen:
+            seen.add(key)
+            parent[key] = (None, None, tuple(nulls))
+            q.append(key)
+    n = 0
+    while q:
+        key = q.popleft()
+        l, s = key
+        n += 1
+        if n > cap:
+            return None
+        if block_unsafe(m, l, s):
+            choices, labels = [], [l]
+            k = key
+            while parent[k][0] is not None:
+                pk, ch, _ = parent[k]
+                choices.append(ch)
+                labels.append(pk[0])
+                k = pk
+            return {"null_args": list(parent[k][2]), "choices": choices[::-1], "labels": labels[::-1]}
+        blk = m.blocks[l]
+        if blk["term"][0] != "br":
+            continue
+        ss = run_ops(blk["ops"], s)
+        assert ss is not None
+        for i, s1 in enumerate(ss):
+            for j, (eops, tgt) in enumerate(blk["term"][1]):
+                ss2 = run_ops(eops, s1)
+                assert ss2 is not None
+                for k2, s2 in enumerate(ss2):
+                    nk = (tgt, s2)
+                    if nk not in seen:
+                        seen.add(nk)
+                        parent[nk] = (key, (i, j, k2), None)
+                        q.append(nk)
+    return None
+
+
+def describe_failure(m: Micro, fd: dict, bad: tuple) -> dict:
+    """Name the IR op / value a rejection is about."""
+    where, mop, v, c = bad
+    out: dict[str, Any] = {"where": list(where) if isinstance(where, tuple) else where, "value": str(c)}
+    vals = fd["values"]
+    if isinstance(mop, tuple) and len(mop) == 4:
+        out["micro_op"] = show_op(m, fd, mop)
+        out["micro_kind"] = OP_NAMES[mop[0]]
+        bi = where[0]
+        irop = fd["blocks"][bi]["ops"][mop[3]]
+        out["ir_op"] = irop["op"]
+        out["ir_function"] = irop.get("function") or irop.get("method") or irop.get("callee")
+        out["ir_line"] = irop.get("line")
+    else:
+        out["micro_kind"] = mop[0]
+    if isinstance(v, int) and v < len(m.val_of):
+        x = vals[m.val_of[v]]
+        out["var"] = x["name"] or f"v{x['id']}"
+        out["var_kind"] = x["kind"]
+        out["var_named"] = bool(x.get("pyname"))
+        # how the value is produced
+        for b in fd["blocks"]:
+            for op in b["ops"]:
+                if op.get("dest") == x["id"] and op["op"] not in ("Assign",):
+                    out["var_def"] = {"op": op["op"], "function": op.get("function"),
+                                      "args": [_operand_desc(fd, s) for s in op["srcs"]]}
+    return out
+
+
+def _operand_desc(fd: dict, vid: int) -> str:
+    for b in fd["blocks"]:
+        for op in b["ops"]:
+            if op.get("dest") == vid:
+                if op["op"] == "LoadStatic":
+                    return f"static:{op.get('namespace')}:{op.get('identifier')}"
+                if op["op"] == "LoadLiteral":
+                    return f"literal:{op.get('value')}"
+                return op["op"]
+    v = fd["values"][vid]
+    return v["kind"]
+
+
+# ---------------------------------------------------------------------------------------------------------------
+# Gen/C06Sample.lean: real final IR as Lean data, checked by the kernel (`sample_accepted_safe`,
+# `sample_rejected_unsafe` in Props/C06.lean)
+# ---------------------------------------------------------------------------------------------------------------
+SAMPLE_FILES = ["refcount.test", "exceptions.test"]
+SAMPLE_MAX_MICRO_OPS = 60
+SAMPLE_MAX_ACCEPTED = 40
+SAMPLE_MAX_REJECTED_OPS = 800
+KNOWN_BAD_PROGRAMS = {
+    # F14: close() of a generated generator class
+    "f14": "from typing import Iterator\ndef gen(n: int) -> Iterator[int]:\n    for i in range(n):\n        yield i\n",
+    # temp register (result of the first await) live across the second await
+    "await_temp": "from typing import Any\nasync def one(x: Any) -> Any:\n    return x\n"
+                  "async def both(a: Any, b: Any) -> Any:\n    return await one(a) + await one(b)\n",
+}
+
+
+def micro_size(m: Micro) -> int:
+    n = 0
+    for b in m.blocks:
+        n += len(b["ops"]) + 1
+        if b["term"][0] == "br":
+            n += sum(len(e[0]) for e in b["term"][1])
+    return n
+
+
+def _sample_job(job: tuple) -> tuple:
+    """(key, [(fullname, name, Micro)] or None) — runs in a worker process."""
+    import os
+    import shutil
+    from translate import ir_export as X
+    i, key, case, workdir = job
+    wd = os.path.join(workdir, f"p{os.getpid()}", f"s{i}")
+    try:
+        mods, side = X.compile_case(case, wd, want_pre=False)
+        return key, [(r["final"].get("fullname", "?"), r["final"].get("name"), flatten(r["final"]))
+                     for r in X.export_modules(mods, side)]
+    except X.CompileFailure:
+        return key, None
+    finally:
+        shutil.rmtree(wd, ignore_errors=True)
+
+
+def build_sample(workdir: str, procs: int = 4) -> dict:
+    """Compile the sample programs with the checked tree's mypyc and split their functions."""
+    import os
+    from multiprocessing import Pool
+    from translate import ir_export as X
+    accepted: list[tuple[str, Micro]] = []
+    rejected: list[tuple[str, Micro, dict]] = []
+    stats = {"compiled": 0, "failed": 0, "functions": 0, "too_big": 0, "unmodelled": 0}
+    cases = []
+    d = os.path.join(X.REPO, "mypyc", "test-data")
+    for f in SAMPLE_FILES:
+        p = os.path.join(d, f)
+        if os.path.exists(p):
+            cases += X.parse_test_file(p)
+    jobs: list[tuple] = [(c.key, c) for c in cases[::2]]      # every second case: enough small functions
+    for name, src in KNOWN_BAD_PROGRAMS.items():
+        jobs.append((name, X.Case("<known>", name, src, {}, "known")))
+    X.fixture_lib_dir(workdir)
+    args = [(i, key, case, workdir) for i, (key, case) in enumerate(jobs)]
+    if procs > 1:
+        with Pool(procs) as pool:
+            results = pool.map(_sample_job, args, chunksize=4)
+    else:
+        results = [_sample_job(a) for a in args]
+    for key, funcs in results:
+        if funcs is None:
+            stats["failed"] += 1
+            continue
+        stats["compiled"] += 1
+        for fullname, name, m in funcs:
+            stats["functions"] += 1
+            if m.unmodelled:
+                stats["unmodelled"] += 1
+                continue
+            bad = check(m)
+            if bad is None:
+                if micro_size(m) <= SAMPLE_MAX_MICRO_OPS and name != "__top_level__":
+                    accepted.append((f"{key}:{fullname}", m))
+                else:
+                    stats["too_big"] += 1
+            else:
+                w = concrete_witness(m, cap=20000)
+                if w is not None and not w["null_args"] and micro_size(m) <= SAMPLE_MAX_REJECTED_OPS:
+                    rejected.append((f"{key}:{fullname}", m, w))
+    # deterministic thinning of the accepted list
+    if len(accepted) > SAMPLE_MAX_ACCEPTED:
+        step = len(accepted) / SAMPLE_MAX_ACCEPTED
+        accepted = [accepted[int(k * step)] for k in range(SAMPLE_MAX_ACCEPTED)]
+    return {"accepted": accepted, "rejected": rejected, "stats": stats}
+
+
+def render_sample(sample: dict) -> str:
+    out = ["-- GENERATED by translate/c06_micro.py from the checked tree's mypyc — do not edit.",
+           "import MypyVerif.Model.IR", "namespace Own.C06Sample", ""]
+    names = []
+    for i, (name, m) in enumerate(sample["accepted"]):
+        out.append(f"/-- {name} -/")
+        out.append(f"def acc{i} : FuncIR :=\n  {lean_term(m)}\n")
+        names.append(f"acc{i}")
+    out.append("def accepted : List FuncIR := [" + ", ".join(names) + "]\n")
+    rnames = []
+    for i, (name, m, w) in enumerate(sample["rejected"]):
+        out.append(f"/-- {name} — rejected; witness path through blocks {w['labels']} -/")
+        out.append(f"def rej{i} : FuncIR :=\n  {lean_term(m)}\n")
+        ch = ", ".join(f"⟨{a}, {b}, {c}⟩" for a, b, c in w["choices"])
+        rnames.append(f"(rej{i}, [{ch}])")
+    out.append("def rejected : List (FuncIR × List Choice) := [" + ", ".join(rnames) + "]\n")
+    out.append("end Own.C06Sample")
+    return "\n".join(out) + "\n"
+
+
+def main() -> int:
+    import os
+    import shutil
+    import tempfile
+    try:
+        from harness.vlib.core import LEAN
+    except Exception:
+        LEAN = os.path.join(os.path.dirname(os.path.dirname(os.path.abspath(__file__))), "lean")
+    base = os.environ.get("VERIF_SCRATCH", "/var/tmp")
+    d = tempfile.mkdtemp(prefix="verif-c06gen-", dir=base)
+    try:
+        sample = build_sample(d)
+    finally:
+        shutil.rmtree(d, ignore_errors=True)
+    text = render_sample(sample)
+    path = os.path.join(LEAN, "MypyVerif", "Gen", "C06Sample.lean")
+    os.makedirs(os.path.dirname(path), exist_ok=True)
+    old = open(path).read() if os.path.exists(path) else None
+    if old != text:
+        with open(path, "w") as f:
+            f.write(text)
+    print(f"c06_micro: {len(sample['accepted'])} accepted + {len(sample['rejected'])} rejected functions "
+          f"-> Gen/C06Sample.lean ({sample['stats']})")
+    return 0
+
+
+if __name__ == "__main__":
+    import sys
+    sys.exit(main())
